@@ -376,6 +376,184 @@ func c09AtomReachableFrom(b *ssa.BasicBlock, idx int, a RetAtom, c *cut) bool {
 	return true
 }
 
+// ---------- loops that must run to the end ----------
+
+// c09YieldErrExit: r leaves a range-over-func body for good (`return false`)
+// carrying an error that cannot be nil: a non-nil error is stored into a
+// captured error variable (the enclosing function's result) on the way.
+func c09YieldErrExit(r *ssa.Return) bool {
+	if len(r.Results) != 1 {
+		return false
+	}
+	cst, isC := r.Results[0].(*ssa.Const)
+	if !isC || cst.Value == nil || cst.Value.String() != "false" {
+		return false
+	}
+	fn := r.Parent()
+	ok := false
+	for _, in := range r.Block().Instrs {
+		st, isSt := in.(*ssa.Store)
+		if !isSt {
+			continue
+		}
+		pt, isPtr := st.Addr.Type().Underlying().(*types.Pointer)
+		if _, isFV := st.Addr.(*ssa.FreeVar); !isFV || !isPtr || !isErrorType(pt.Elem()) {
+			continue
+		}
+		ok = false
+		if ErrNilStatus(st.Val, 0) == NonNil {
+			ok = true
+		} else if _, isConst := st.Val.(*ssa.Const); !isConst {
+			if _, nonNil, _ := NilTests(fn, Aliases(st.Val)); len(nonNil) > 0 && MustPass(r, newCut().Edges(nonNil...)) {
+				ok = true
+			}
+		}
+	}
+	return ok
+}
+
+// c09LoopEarlyExit: once an iteration of loop l of g has begun, g can go on to a
+// return that may report success without the loop having been left through its
+// header (collection exhausted / condition false) — `return nil`, `break`, … in
+// the body.  extra: further edges that count as regular ends (the false edge of
+// a yield call in a producer).  In a range-over-func body `return true`
+// (continue of the outer loop) and an exit without a non-nil error count as
+// success; in a function without an error result every return does.
+func c09LoopEarlyExit(g *ssa.Function, l *Loop, extra []Edge) (bad bool, at token.Pos) {
+	ct := newCut().Edges(extra...)
+	n := len(extra)
+	for _, s := range l.Header.Succs {
+		if !l.Blocks[s] {
+			ct.Edges(Edge{l.Header, s})
+			n++
+		}
+	}
+	if n == 0 {
+		return false, token.NoPos // no regular end known (`for { … }` without a designated exit)
+	}
+	return c09LoopLeftOtherThan(g, l, ct)
+}
+
+// c09LoopLeftOtherThan: the same with the regular ends given as a cut (for a
+// `for { … }` loop whose only regular end is a tested condition in the body).
+func c09LoopLeftOtherThan(g *ssa.Function, l *Loop, ct *cut) (bad bool, at token.Pos) {
+	// from the header with the regular ends cut = from the beginning of an iteration
+	start := l.Header
+	switch ei := ErrResultIndex(g.Signature); {
+	case c09IsYieldBody(g):
+		for _, r := range Returns(g) {
+			if !c09YieldErrExit(r) && reach(start, 0, r, ct) {
+				return true, r.Pos()
+			}
+		}
+	case ei >= 0:
+		for _, a := range RetAtoms(g, ei) {
+			if c09MayBeNilAtom(g, a) && c09AtomReachableFrom(start, 0, a, ct) {
+				return true, a.Ret.Pos()
+			}
+		}
+	default:
+		for _, r := range Returns(g) {
+			if reach(start, 0, r, ct) {
+				return true, r.Pos()
+			}
+		}
+	}
+	return false, token.NoPos
+}
+
+// c09IterEarlyExit: the same for an iteration in the uniform view: a classic
+// range loop, or a range-over-func loop — its body must not `break` / return
+// without a non-nil error, and an in-module producer's own loop ends early only
+// where its yield call answered false.
+func c09IterEarlyExit(it *c09Iter) (bad bool, at token.Pos) {
+	if it.Loop != nil {
+		return c09LoopEarlyExit(it.Fn, it.Loop, nil)
+	}
+	for _, r := range Returns(it.Fn) {
+		if cst, isC := r.Results[0].(*ssa.Const); isC && cst.Value != nil && cst.Value.String() == "false" && !c09YieldErrExit(r) {
+			return true, it.Stmt.Pos()
+		}
+	}
+	if it.ProdIter != nil && it.ProdIter.Loop != nil && it.Producer != nil {
+		var stop []Edge
+		for _, yc := range c09YieldCalls(it.Producer) {
+			_, fe := BoolTests(it.Producer, Aliases(yc))
+			stop = append(stop, fe...)
+		}
+		if bad, at := c09LoopEarlyExit(it.ProdIter.Fn, it.ProdIter.Loop, stop); bad {
+			return true, at
+		}
+	}
+	return false, token.NoPos
+}
+
+// c09SuccessCut: the program points of fn after which each of the given calls
+// has succeeded: the nil edge of the call's error; the call itself when its
+// error is handed back untested (nothing else runs after a failure).
+func c09SuccessCut(fn *ssa.Function, calls []ssa.Instruction, ct *cut) {
+	for _, in := range calls {
+		call, ok := in.(ssa.CallInstruction)
+		if !ok {
+			continue
+		}
+		e := ErrOf(call)
+		if e == nil {
+			continue
+		}
+		ne, _, ifs := NilTests(fn, Aliases(e))
+		if len(ifs) > 0 {
+			ct.Edges(ne...)
+		} else if ErrFlow(call, ErrFlowOpts{}).OK {
+			ct.Instr(in)
+		}
+	}
+}
+
+// c09SuccessImplies: every return of fn that may report success (nil error)
+// lies behind the cut.
+func c09SuccessImplies(fn *ssa.Function, ct *cut) (ok bool, at token.Pos) {
+	ei := ErrResultIndex(fn.Signature)
+	if ei < 0 {
+		return true, fn.Pos()
+	}
+	for _, a := range RetAtoms(fn, ei) {
+		if c09MayBeNilAtom(fn, a) && !AtomMustPass(a, ct) {
+			return false, a.Ret.Pos()
+		}
+	}
+	return true, fn.Pos()
+}
+
+// c09InLoopRegion: in is executed only inside an iteration of l — in the natural
+// loop, or in a block that leaves it for good (`…; break`, `…; return`) and is
+// entered only from the body.
+func c09InLoopRegion(l *Loop, in ssa.Instruction) bool {
+	b := in.Block()
+	if l.Blocks[b] {
+		return true
+	}
+	for _, s := range l.Header.Succs {
+		if l.Blocks[s] && s != l.Header && s.Dominates(b) {
+			return true
+		}
+	}
+	return false
+}
+
+// c09BodyCalls: the calls made in the body of the iteration (including the
+// blocks that leave a classic loop from its body).
+func c09BodyCalls(it *c09Iter) []ssa.CallInstruction {
+	var out []ssa.CallInstruction
+	for _, call := range Calls(it.Fn, func(string) bool { return true }) {
+		in := call.(ssa.Instruction)
+		if it.InBody(in) || (it.Loop != nil && in.Parent() == it.Fn && c09InLoopRegion(it.Loop, in)) {
+			out = append(out, call)
+		}
+	}
+	return out
+}
+
 // c09Callee: the function called — also when it is a local closure kept in a
 // variable (`keep := func(…) {…}; keep(x)`), possibly captured by another closure.
 func c09Callee(call ssa.CallInstruction) *ssa.Function {
